@@ -2,6 +2,8 @@ package props
 
 // Registry maps a property id to its check.
 var Registry = map[string]func(tier, replay string) int{
+	"C02": RunC02,
+	"C05": RunC05,
 	"C12": RunC12,
 	"C13": RunC13,
 	"C14": RunC14,
